@@ -85,6 +85,134 @@ impl Drop for Guarded {
     }
 }
 
+// ------------------------------------------------------------------ search masks ----
+
+/// Independent model of a search mask: `*` stands for any run of characters (also none, also across backslashes), `?` for
+/// exactly one character, everything else for itself without regard to ASCII case; the whole name has to be covered.
+/// Written as the classic two-cursor scan with one backtrack point (no recursion, no shared code with the library).
+/// Only meaningful for ASCII masks and names (the callers skip everything else).
+pub fn glob_match(mask: &[u8], name: &[u8]) -> bool {
+    let fold = |c: u8| c.to_ascii_lowercase();
+    let (mut m, mut n) = (0usize, 0usize);
+    let mut back: Option<(usize, usize)> = None; // (mask index after the last '*', name index it is currently tried at)
+    while n < name.len() {
+        if m < mask.len() && mask[m] == b'*' {
+            m += 1;
+            back = Some((m, n));
+        } else if m < mask.len() && (mask[m] == b'?' || fold(mask[m]) == fold(name[n])) {
+            m += 1;
+            n += 1;
+        } else if let Some((bm, bn)) = back {
+            // let the last star swallow one more character
+            m = bm;
+            n = bn + 1;
+            back = Some((bm, bn + 1));
+        } else {
+            return false;
+        }
+    }
+    while m < mask.len() && mask[m] == b'*' {
+        m += 1;
+    }
+    m == mask.len()
+}
+
+/// Hand-checked vectors for `glob_match` (a model that is wrong would make the check lie in either direction).
+pub fn glob_selftest() -> Result<(), String> {
+    let v: &[(&str, &str, bool)] = &[
+        ("*", "", true), ("*", "abc", true), ("", "", true), ("", "a", false), ("?", "", false), ("?", "a", true), ("?", "ab", false),
+        ("a*b", "ab", true), ("a*b", "axb", true), ("a*b", "axxb", true), ("a*b", "abx", false), ("a*b", "b", false),
+        ("*ab", "ab", true), ("*ab", "xab", true), ("*ab", "abx", false), ("ab*", "ab", true), ("ab*", "abx", true), ("ab*", "xab", false),
+        ("a*b*c", "abc", true), ("a*b*c", "axbxc", true), ("a*b*c", "acb", false), ("**a", "a", true), ("a**", "a", true), ("a*?", "a", false), ("a*?", "ab", true),
+        ("a?*", "a", false), ("a?*", "abc", true), ("*?*", "", false), ("*?*", "x", true), ("readme*.txt", "readme.txt", true), ("*.txt", "readme.txt", true),
+        ("*.txt", "readme.txt.bak", false), ("dir\\*", "dir\\sub\\x.dat", true), ("*name.ext", "name.ext", true), ("A?c", "abc", true), ("abc", "ABC", true),
+        ("a*a", "a", false), ("a*a", "aa", true), ("*a*a*", "a", false), ("*aab", "aaab", true), ("a*ab", "aab", true), ("???", "ab", false), ("???", "abc", true),
+    ];
+    for (m, n, want) in v {
+        if glob_match(m.as_bytes(), n.as_bytes()) != *want {
+            return Err(format!("glob model: {m:?} vs {n:?} should be {want}"));
+        }
+    }
+    Ok(())
+}
+
+pub const MASK_KINDS: u32 = 12;
+
+/// selector of `mask_from_name`: shape kind | position selector << 4 | extra << 12
+pub fn mask_sel(kind: u32, pos_sel: u32, extra: u32) -> u32 {
+    (kind % 16) | ((pos_sel % 256) << 4) | (extra << 12)
+}
+
+/// A search mask derived from an (ASCII) name of the archive, with `*` / `?` placed at a position of the name chosen by
+/// the selector: every shape x every position is reachable, including a star that has to stand for nothing at the
+/// start, in the middle and at the end, and masks that just fail to match the name they came from.
+/// Position selectors 0..=24 count from the front (modulo length + 1), 25.. count back from the end.
+pub fn mask_from_name(name: &str, sel: u32) -> (String, &'static str) {
+    debug_assert!(name.is_ascii());
+    let len = name.len();
+    let kind = sel % 16 % MASK_KINDS;
+    let ps = (sel >> 4) % 256;
+    let r = (sel >> 12) as usize;
+    let pos = if ps <= 24 { ps as usize % (len + 1) } else { len.saturating_sub((ps - 25) as usize % (len + 1)) };
+    let (a, b) = name.split_at(pos);
+    let after1 = if pos < len { &name[pos + 1..] } else { "" };
+    match kind {
+        0 => (format!("{a}*{b}"), "star-inserted"),
+        1 => {
+            let j = (pos + 1 + r % 3).min(len);
+            (format!("{a}*{}", &name[j..]), "star-replaces-run")
+        }
+        2 => (format!("{a}?{after1}"), "qmark-replaces-char"),
+        3 => (format!("{a}?{b}"), "qmark-inserted"),
+        4 => (format!("*{b}"), "star-then-suffix"),
+        5 => (format!("{a}*"), "prefix-then-star"),
+        6 => {
+            let p2 = pos + (len - pos) / 2;
+            (format!("{a}*{}*{}", &name[pos..p2], &name[p2..]), "two-stars-inserted")
+        }
+        7 => (format!("{a}*?{after1}"), "star-qmark"),
+        8 => (format!("{a}?*{after1}"), "qmark-star"),
+        9 => {
+            let swapped: String = name.chars().map(|c| if c.is_ascii_lowercase() { c.to_ascii_uppercase() } else { c.to_ascii_lowercase() }).collect();
+            let (x, y) = swapped.split_at(pos);
+            (format!("{x}*{y}"), "othercase-star-inserted")
+        }
+        10 => {
+            if r % 2 == 0 {
+                ("?".repeat(len), "all-qmarks")
+            } else {
+                (format!("{}*", "?".repeat(pos)), "qmarks-then-star")
+            }
+        }
+        _ => {
+            let j = (pos + 1 + r % 4).min(len);
+            (format!("*{}*", &name[pos..j]), "star-infix-star")
+        }
+    }
+}
+
+/// Structural features of a mask, for signatures: where its stars stand, whether it has question marks.
+pub fn mask_features(mask: &str) -> String {
+    let b = mask.as_bytes();
+    let mut f: Vec<&str> = Vec::new();
+    if b.first() == Some(&b'*') {
+        f.push("star-leading");
+    }
+    if b.len() > 2 && b[1..b.len() - 1].contains(&b'*') {
+        f.push("star-inner");
+    }
+    if b.len() > 1 && b.last() == Some(&b'*') {
+        f.push("star-trailing");
+    }
+    if b.contains(&b'?') {
+        f.push("qmark");
+    }
+    if f.is_empty() {
+        f.push("literal");
+    }
+    f.join("+")
+}
+
 // ------------------------------------------------------------------ fixtures ----
 
 #[derive(Clone, Debug)]
